@@ -16,6 +16,26 @@ pub fn main_wrap(prop: &str, run: fn(&mut Ctx)) {
     if ctx.opts.extra("digests").is_some() {
         ctx.enable_digests();
     }
+    if ctx.opts.extra("logger").is_some() {
+        // a logger that accepts everything and drops it: the crates' log macros evaluate their arguments
+        struct Sink;
+        impl log::Log for Sink {
+            fn enabled(&self, _: &log::Metadata) -> bool {
+                true
+            }
+            fn log(&self, r: &log::Record) {
+                // format the message (as a real logger would), then drop it
+                use std::fmt::Write;
+                let mut s = String::new();
+                let _ = write!(s, "{}", r.args());
+                std::hint::black_box(s.len());
+            }
+            fn flush(&self) {}
+        }
+        static SINK: Sink = Sink;
+        let _ = log::set_logger(&SINK);
+        log::set_max_level(log::LevelFilter::Trace);
+    }
     // a panic that escapes a leaf is a defect of the harness, not a verdict: say where it came from
     let r = std::panic::catch_unwind(std::panic::AssertUnwindSafe(|| run(&mut ctx)));
     if r.is_err() {
